@@ -77,6 +77,9 @@ type Case struct {
 	// Ctxs lists the consuming contexts to evaluate besides "ret" (which
 	// is always evaluated); ["*"] = all contexts of the result type.
 	Ctxs []string `json:"ctxs"`
+	// C is the constant (of the result type) that the folded value meets
+	// in the consumers clt, cge, ceq, cdiv, cmod, cand.
+	C Lit `json:"c"`
 	// probe marks the internal re-evaluation of a folded consumer.
 	probe bool
 }
@@ -278,6 +281,24 @@ var intCtx = []ctxInfo{
 	{"xor", "T", "return %e ^ z"},
 	{"if", "T", "if %e < z {\n\t\treturn z\n\t}\n\treturn w"},
 	{"widen", "W", "return %W(%e) + v"},
+	// The folded value meets another constant (%c, %d = non-zero): the
+	// whole expression is folded, the compiler reads e as a number.
+	{"clt", "bool", "return %e < %c"},
+	{"cge", "bool", "return %e >= %c"},
+	{"ceq", "bool", "return %e == %c"},
+	// ... and an untyped constant (%u).
+	{"ult", "bool", "return %e < %u"},
+	{"uge", "bool", "return %e >= %u"},
+	{"ueq", "bool", "return %e == %u"},
+	{"cdiv", "T", "return %e / %d"},
+	{"cmod", "T", "return %e % %d"},
+	// The compiler itself uses the folded value as a number: constant
+	// shift count, constant array index.  No P_run exists for these
+	// (MPCL has no run-time shift counts): the oracle is the math/big
+	// model of the operator.
+	{"cntshr", "N", "return n >> %e"},
+	{"cntshl", "N", "return n << %e"},
+	{"index", "I", "return arr[%e]"},
 }
 
 var boolCtx = []ctxInfo{
@@ -288,7 +309,24 @@ var boolCtx = []ctxInfo{
 	{"and", "bool", "return %e && q"},
 	{"or", "bool", "return %e || q"},
 	{"eq", "bool", "return %e == q"},
+	{"ceq", "bool", "return %e == %c"},
+	{"cand", "bool", "return %e && %c"},
 }
+
+// ctxGroup: "" = run-time consumer of the original list, "const" = the
+// folded value meets another constant, "num" = the compiler uses the folded
+// value as a number (shift count, array index).
+func ctxGroup(name string) string {
+	switch name {
+	case "clt", "cge", "ceq", "cdiv", "cmod", "cand", "ult", "uge", "ueq":
+		return "const"
+	case "cntshr", "cntshl", "index":
+		return "num"
+	}
+	return ""
+}
+
+const indexLen = 8
 
 // resultType returns kind and width of the operator's result.
 func (cs Case) resultType() (string, int) {
@@ -371,7 +409,12 @@ func (cs Case) sources(cx ctxInfo) (pconst, prun string) {
 	body := func(e string, binds []string) string {
 		lines := append([]string{}, binds...)
 		ref := "e"
-		switch cs.Res {
+		res := cs.Res
+		if res == "var" && ctxGroup(cx.name) == "num" {
+			// A variable is not a constant shift count / index.
+			res = "inline"
+		}
+		switch res {
 		case "define":
 			lines = append(lines, "e := "+e)
 		case "var":
@@ -381,6 +424,18 @@ func (cs Case) sources(cx ctxInfo) (pconst, prun string) {
 		}
 		txt := strings.ReplaceAll(cx.body, "%e", ref)
 		txt = strings.ReplaceAll(txt, "%W", wide)
+		if strings.Contains(txt, "%c") || strings.Contains(txt, "%d") || strings.Contains(txt, "%u") {
+			c := cs.C
+			if c.V == "" {
+				c.V = "1"
+			}
+			txt = strings.ReplaceAll(txt, "%c", spell(c, rk, rb))
+			txt = strings.ReplaceAll(txt, "%u", untyped(c))
+			if parse(c.V).Sign() == 0 {
+				c.V = "1"
+			}
+			txt = strings.ReplaceAll(txt, "%d", spell(c, rk, rb))
+		}
 		lines = append(lines, txt)
 		return "\t" + strings.Join(lines, "\n\t") + "\n"
 	}
@@ -393,6 +448,10 @@ func (cs Case) sources(cx ctxInfo) (pconst, prun string) {
 		params = fmt.Sprintf("z %s, w %s, v %s", rtn, rtn, wide)
 	}
 	switch cx.ret {
+	case "N":
+		params, ret = "n uint64", "uint64"
+	case "I":
+		params, ret = fmt.Sprintf("arr [%d]uint8", indexLen), "uint8"
 	case "T":
 		ret = rtn
 	case "W":
@@ -632,10 +691,18 @@ func coarseSign(l Lit, kind string, bits int) string {
 // another number); wrap (run-time consumers that depend on the low N bits
 // only); bool (consumers of a folded boolean).
 func ctxClass(name string, boolResult bool) string {
+	switch name {
+	case "cntshr", "cntshl":
+		return "shiftcount"
+	case "index":
+		return "index"
+	}
 	if boolResult {
 		return "bool"
 	}
 	switch name {
+	case "clt", "cge", "ceq", "cdiv", "cmod", "ult", "uge", "ueq":
+		return "shape"
 	case "lt", "rlt", "ge", "eq", "if", "div", "mod", "shr", "shl", "widen":
 		return "shape"
 	case "add", "radd", "sub", "rsub", "mul", "xor", "band":
@@ -692,6 +759,7 @@ func (cs Case) signature(ctx string) string {
 
 type ctxResult struct {
 	name   string
+	class  string // overrides ctxClass(name) in the signature
 	folded bool
 	diff   string // description of the first differing z, "" = equal
 	reject string
@@ -701,7 +769,9 @@ type ctxResult struct {
 }
 
 // chained tells whether the consumer is folded itself when e is constant.
-func chained(ctx string) bool { return ctx == "shr" || ctx == "shl" || ctx == "widen" }
+func chained(ctx string) bool {
+	return ctx == "shr" || ctx == "shl" || ctx == "widen" || ctxGroup(ctx) == "const"
+}
 
 func (cs Case) contexts() []ctxInfo {
 	rk, _ := cs.resultType()
@@ -806,9 +876,86 @@ func (cs Case) consumerBroken(ctx, value string) bool {
 		l.Neg = "unary"
 	}
 	probe := Case{Op: "lit", Kind: rk, Bits: rb, A: l, Bind: "inline", Res: cs.Res,
-		Z: cs.Z, W: cs.W, Q: cs.Q, Ctxs: []string{ctx}, probe: true}
+		Z: cs.Z, W: cs.W, Q: cs.Q, C: cs.C, Ctxs: []string{ctx}, probe: true}
 	fails, _ := evaluateOp(probe, false)
 	return len(fails) > 0
+}
+
+// evalNumber evaluates a consumer in which the compiler itself uses the folded
+// value as a number (constant shift count, constant array index) against the
+// math/big model of the operator.  Only unsigned results and non-negative
+// signed results of non-negative operands are used.
+func (cs Case) evalNumber(cx ctxInfo) (ctxResult, bool) {
+	res := ctxResult{name: cx.name, folded: true}
+	rk, rb := cs.resultType()
+	if rk == "bool" || cs.Bind == "vardecl" || (cs.Kind == "int" && cs.worstSign() != "pos") {
+		return res, false
+	}
+	m := model(cs)
+	if m == nil {
+		return res, false
+	}
+	k := wrap(m, rk, rb)
+	if k.Sign() < 0 {
+		return res, false
+	}
+	pconst, _ := cs.sources(cx)
+	valid := k.BitLen() < 32
+	if cx.name == "index" {
+		valid = k.Cmp(big.NewInt(indexLen)) < 0
+	}
+	pc := compile(pconst)
+	switch {
+	case pc.panic != "":
+		res.panic = pc.panic + "program:\n" + pconst
+		return res, true
+	case pc.err != "":
+		if !valid {
+			res.reject = pc.err
+			return res, true
+		}
+		res.class = ctxClass(cx.name, false) + "-rejected"
+		res.diff = fmt.Sprintf("the folded value is %s, a valid constant %s, but the program is rejected: %s\nP_const:\n%s",
+			k, ctxClass(cx.name, false), pc.err, pconst)
+		return res, true
+	}
+	if !valid {
+		// Accepted although out of range: implementation defined.
+		return res, false
+	}
+	mask64 := new(big.Int).Sub(pow2(64), big.NewInt(1))
+	for i := 0; i < 3 && i < len(cs.Z); i++ {
+		var in, want *big.Int
+		switch cx.name {
+		case "cntshr":
+			in = pattern(new(big.Int).Mul(parse(cs.Z[i]), big.NewInt(0x9e3779b97f4a7c15>>1)), 64)
+			in.SetBit(in, 63, 1)
+			want = new(big.Int).Rsh(in, uint(k.Int64()))
+		case "cntshl":
+			in = pattern(new(big.Int).Mul(parse(cs.Z[i]), big.NewInt(0x9e3779b97f4a7c15>>1)), 64)
+			in.SetBit(in, 0, 1)
+			if k.Int64() >= 64 {
+				want = new(big.Int)
+			} else {
+				want = new(big.Int).Lsh(in, uint(k.Int64()))
+				want.And(want, mask64)
+			}
+		default:
+			in = new(big.Int)
+			for e := 0; e < indexLen; e++ {
+				in.Or(in, new(big.Int).Lsh(big.NewInt(int64(0x11*(e+1)+i)), uint(8*e)))
+			}
+			want = big.NewInt(int64(0x11*(int(k.Int64())+1) + i))
+		}
+		got, err := compute(pc, []*big.Int{in})
+		res.evals++
+		if err != nil || len(got) != 1 || got[0].Cmp(want) != 0 {
+			res.diff = fmt.Sprintf("input %s: P_const gives %v (%v), the model (folded value %s) gives %s\nP_const:\n%s",
+				in, got, err, k, want, pconst)
+			break
+		}
+	}
+	return res, true
 }
 
 // evaluate runs all contexts of the case and returns every failure (one per
@@ -859,6 +1006,19 @@ func evaluateOp(cs Case, checkOperands bool) ([]ev.Outcome, ev.Outcome) {
 	var sample string
 	nz := len(cs.Z)
 	for _, cx := range cs.contexts() {
+		switch ctxGroup(cx.name) {
+		case "const":
+			// Signed: non-negative operands only (the negative
+			// family is an open finding).
+			if cs.C.V == "" || (cs.Kind == "int" && cs.worstSign() == "neg") {
+				continue
+			}
+		case "num":
+			if res, ok := cs.evalNumber(cx); ok {
+				results = append(results, res)
+			}
+			continue
+		}
 		pconst, prun := cs.sources(cx)
 		if cx.name == "ret" {
 			sample = pconst
@@ -931,6 +1091,13 @@ func evaluateOp(cs Case, checkOperands bool) ([]ev.Outcome, ev.Outcome) {
 	// Book-keeping and verdict.
 	evals := 0
 	folded := 0
+	for _, r := range results {
+		if ctxGroup(r.name) != "" && r.evals > 0 {
+			col.Count("compared_"+ctxGroup(r.name)+"_"+r.name, 1)
+		} else if ctxGroup(r.name) != "" && r.reject != "" {
+			col.Count("rejected_"+ctxGroup(r.name)+"_"+r.name, 1)
+		}
+	}
 	retDiffers, retNofoldDiffers := false, false
 	var retValue string
 	for _, r := range results {
@@ -963,6 +1130,9 @@ func evaluateOp(cs Case, checkOperands bool) ([]ev.Outcome, ev.Outcome) {
 				r.name, r.panic))
 		case r.diff != "":
 			ctx := ctxClass(r.name, rk == "bool")
+			if r.class != "" {
+				ctx = r.class
+			}
 			prefix := "fold/"
 			if !r.folded {
 				prefix = "nofold/"
@@ -1174,7 +1344,47 @@ func (cs Case) ctxNames() []string {
 	}
 	var res []string
 	for _, c := range list[1:] {
-		res = append(res, c.name)
+		if ctxGroup(c.name) == "" {
+			res = append(res, c.name)
+		}
+	}
+	return res
+}
+
+// numNames returns the names of the consumers of the groups "const" and
+// "num" of the result type.
+func (cs Case) numNames() []string {
+	rk, _ := cs.resultType()
+	list := intCtx
+	if rk == "bool" {
+		list = boolCtx
+	}
+	var res []string
+	for _, c := range list {
+		if ctxGroup(c.name) != "" {
+			res = append(res, c.name)
+		}
+	}
+	return res
+}
+
+// meetValues lists the constants the folded value is compared with /
+// divided by: 0, 1, small, max/2, max, top bit.
+func meetValues(kind string, bits int) []*big.Int {
+	if kind == "bool" {
+		return []*big.Int{new(big.Int), big.NewInt(1)}
+	}
+	_, mx := minMax(kind, bits)
+	cand := []*big.Int{new(big.Int), big.NewInt(1), big.NewInt(3), big.NewInt(5),
+		new(big.Int).Rsh(mx, 1), mx, new(big.Int).Sub(mx, big.NewInt(1))}
+	if kind == "uint" {
+		cand = append(cand, pow2(bits-1))
+	}
+	var res []*big.Int
+	for _, c := range cand {
+		if c.Cmp(mx) <= 0 {
+			res = append(res, c)
+		}
 	}
 	return res
 }
@@ -1188,6 +1398,10 @@ func drawCtxs(t *rapid.T, cs *Case) []string {
 	for i := 0; i < n; i++ {
 		res = append(res, names[(start+i*step)%len(names)])
 	}
+	res = append(res, rapid.SampledFrom(cs.numNames()).Draw(t, "numctx"))
+	rk, rb := cs.resultType()
+	mv := meetValues(rk, rb)
+	cs.C = Lit{V: mv[rapid.IntRange(0, len(mv)-1).Draw(t, "meet")].String()}
 	return res
 }
 
